@@ -10,7 +10,10 @@
 // configurations with the same tokens in a different layout").
 package cfgcorpus
 
-import "strings"
+import (
+	"fmt"
+	"strings"
+)
 
 // Base is one hand-written (part a) or product-generated (part b) valid
 // configuration.
@@ -26,6 +29,15 @@ type Base struct {
 // run otherwise).
 func PairBases() []Base {
 	type b = struct{ name, src string }
+	var align []b
+	for n := 1; n <= 100; n++ {
+		// quick and thorough both: the widths around the formatter's 40-space chunks, plus a spread
+		if !(n <= 3 || n%10 == 0 || (n >= 34 && n <= 50) || (n >= 74 && n <= 90)) {
+			continue
+		}
+		name := strings.Repeat("n", n)
+		align = append(align, b{fmt.Sprintf("align-%03d", n), name + " = 1 // c\nx = (6 / // h\n  2)\ny = 2 # d\n"})
+	}
 	list := []b{
 		// --- trivial files
 		{"empty", ""},
@@ -57,6 +69,9 @@ func PairBases() []Base {
 		{"traversal-splat", "a = foo.objs[*].id\nb = foo.objs.*.id\nc = foo.objs[*]\nd = foo.objs[*].name[0]\n"},
 		{"traversal-on-expr", "a = (foo).bar\nb = f(1)[0]\nc = f(foo).0.bar\nd = [1, 2][0]\ne = { x = 1 }.x\nf = l[0][1]\ng = foo[\"objs\"][0][\"id\"]\n"},
 		{"number-dot", "a = 1 .x\nb = [1 . 5]\nc = 1 .e5x\n"},
+		{"slash-then-comment", "a = 6 / /* h */ 2\nb = [6 /\n  // h\n  2]\nc = 2 * /* m */ 3\nd = (6 / // h\n  2)\n"},
+		{"index-key-heredoc", "a = foo[<<K\nname\nK\n]\nb = 1\n"},
+		{"labels-dollar-runs", "b \"cost$$${unit}\" {}\nb \"a%%%{x}\" \"$$$\" {}\nb \"$${a}$${b}\" \"%%{%%{\" {}\n"},
 		{"number-dot-signed-exponent", "a = 1 .e-5\nb = [b.0 .e-7]\nc = 2 .E-1x\nd = 3 .e+1\n"},
 		{"traversal-splat-legacy-index", "a = foo.objs.*.name.0\nb = foo.objs.*.0\nc = foo.objs.*.id.0.x\nd = [foo.objs.*.name.0, 1]\n"},
 		{"template-strip-mixed", "a = \"${c}-${~ c ~}-${c ~}\"\nb = \"%{ if t }x%{~ endif }%{ if t ~}y%{ endif ~}\"\nc = \"${~ c}\"\n"},
@@ -112,6 +127,7 @@ func PairBases() []Base {
 		{"names", "a-b = 1\né = a-b\na_b-c1 = é\n"},
 		{"literals", "a = 1.5\nb = 1e5\nc = 1.5e-3\nd = true\ne = null\ng = 0\n"},
 	}
+	list = append(list, align...)
 	out := make([]Base, len(list))
 	for i, e := range list {
 		out[i] = Base{Part: "a", Name: e.name, Src: e.src}
